@@ -316,6 +316,21 @@ Example C07_writable_nonvacuous :
   forallb cop_proved w_wr_nested = true /\ model_ok false w_wr_nested = true.
 Proof. exact w_writable_ok. Qed.
 
+(* A trait model that writes one of its OWN stored messages to another of its resources (electricpb
+   changeActiveMode: the mode held by the modes collection is the argument of activeMode.Set): with the write
+   given proto.Clone of the stored message (repo 6705ac9) the operation is a well-behaved model-level operation
+   for every writable-field set, update mask and reset mask of the other resource - histories containing it are
+   inside C07_published_frozen.  Before the repair the writable filter ran in place on the stored message. *)
+Theorem C07_write_of_stored_message_well_behaved : forall n k w um rs, wb_read (r_write_stored n k w um rs).
+Proof. exact wb_read_write_stored. Qed.
+Print Assumptions C07_write_of_stored_message_well_behaved.
+Theorem C07_write_of_stored_message_v0_refuted : changed_last (w_write_stored true) = [1; 2].
+Proof. exact w_write_stored_v0_fails. Qed.
+Print Assumptions C07_write_of_stored_message_v0_refuted.
+Example C07_write_of_stored_message_now_ok :
+  changed_last (w_write_stored false) = [] /\ zlen (snaps (run fuel (init_state true) (w_write_stored false))) = 4.
+Proof. exact w_write_stored_ok. Qed.
+
 (* ---- the snapshot monitor (harness/c07: deep copy at crossing time, re-comparison after every
    later operation) is sound and complete with respect to the tagged model ---- *)
 
